@@ -13,6 +13,9 @@ for f in kf:
     seen.add((f['property'], c))
     sid = f"{f['property']}_F{c}"
     d = os.path.join(VERIF, 'seeded', sid)
+    mp = os.path.join(d, 'meta.json')
+    if os.path.exists(mp) and json.load(open(mp)).get('rebased'):
+        print(sid, 'kept (re-expressed by hand on a later tree)'); continue
     diff = subprocess.run(['git', '-C', '/repo', 'diff', c, f'{c}~1', '--', 'bumble'], capture_output=True, text=True).stdout
     if not diff.strip():
         print(sid, 'empty diff'); continue
